@@ -88,6 +88,10 @@ impl Check for C19 {
     fn strategy(&self, tier: Tier) -> BoxedStrategy<Case> {
         let p = GenParams { max_ticks: tier.pick(120, 300), max_sends: 4, max_frags: tier.pick(6, 16), tail: true, modes: [1, 2, 2, 3], ..GenParams::default() };
         let codec = (scenario_strategy(&GenParams { max_ticks: 1, max_sends: 1, faults: false, tail: false, max_fates: 1, ..GenParams::default() }), proptest::collection::vec(crate::props::c16::parser_input_strategy(), 1..20)).prop_map(|(sc, inputs)| Case { sc, drop_after: 0, run_tail: false, world: None, codec: Some(inputs) });
+        // packets of up to 90 fragments (assembly buffers beyond 64 KiB take other paths in allocators and in code
+        // that special-cases large blocks)
+        let pb = GenParams { max_ticks: tier.pick(60, 150), max_sends: 2, max_frags: 90, tail: true, modes: [1, 2, 2, 3], tight_alloc: false, ..GenParams::default() };
+        let pair_big = (scenario_strategy(&pb), prop_oneof![2 => Just(u16::MAX), 3 => any::<u16>()], any::<bool>()).prop_map(|(sc, drop_after, run_tail)| Case { sc, drop_after, run_tail, world: None, codec: None });
         let pair = (scenario_strategy(&p), prop_oneof![2 => Just(u16::MAX), 3 => any::<u16>()], any::<bool>()).prop_map(|(sc, drop_after, run_tail)| Case { sc, drop_after, run_tail, world: None, codec: None });
         // Client / Server teardown: World scripts with a short settle phase, so that endpoints are dropped while
         // connections are pending, active (data in flight), closing or lingering
@@ -97,7 +101,7 @@ impl Check for C19 {
             wc.settle_us = settle;
             Case { sc, drop_after: 0, run_tail: false, world: Some(wc), codec: None }
         });
-        prop_oneof![4 => pair, 2 => world, 1 => codec].boxed()
+        prop_oneof![4 => pair, 1 => pair_big, 2 => world, 1 => codec].boxed()
     }
 
     fn cases(&self, tier: Tier) -> u64 {
